@@ -666,7 +666,7 @@ def align_scale(etype, tmax, cond, spread, s):
     return cond * lever * max(1.0, s, 1.0 / s) * (180.0 / np.pi if etype == "degree" else 1.0)
 
 
-def check_metrics(ck, rng, N, dn):
+def check_metrics(ck, rng, N, dn, force_epoch=False):
     u = lie.u_of(lie.DT[dn])
     amax = float(rng.choice([0.2, 1.0]))
     tstep = float(rng.choice([0.05, 1.0, 20.0]))
@@ -678,13 +678,20 @@ def check_metrics(ck, rng, N, dn):
     offset = float(rng.choice([0.0, 0.0, 0.37, -1.5]))
     jit = rng.uniform(-0.4, 0.4, N) * diff
     use_none = rng.random() < 0.15
+    if force_epoch:
+        # added by the framework owner: float64 UNIX-epoch timestamps (1.7e9 s, ~20 Hz) with float32 poses - the stamps must
+        # keep their own precision whatever the dtype of the poses
+        g_ = rng.uniform(5 * diff, 30 * diff, N)
+        g_[0] = 0
+        base, use_none = 1.7e9 + np.cumsum(g_), False
+        ck.mark(f"metric/epoch-stamps/poses:{dn}")
     if use_none:
         rst = est_st = None
         offset, diff_kw = 0.0, {}
     else:
         rst, est_st = base, base + jit - offset
         diff_kw = {"diff": diff, "offset": offset}
-    sdt = torch.float64 if rng.random() < 0.85 else torch.float32
+    sdt = torch.float64 if (rng.random() < 0.85 or force_epoch) else torch.float32
     if sdt == torch.float32 and not use_none:
         # float32 stamps: keep them exactly representable and well separated
         base32 = np.arange(N) * 0.5 + 3.0
@@ -969,6 +976,8 @@ def run_metrics(ck):
         if not ck.mine(i):
             continue
         check_metrics(ck, rng, N, "f64" if i % 4 != 3 else "f32")
+    for dn_ in ("f32", "f64"):
+        check_metrics(ck, rng, int(rng.integers(5, 60)), dn_, force_epoch=True)
     # offset != 0 with float64 stamps on every shard (the F04 regime), and a None-stamp case
     for _ in range(6 if thorough else 1):
         N = int(rng.integers(3, 40))
@@ -993,7 +1002,7 @@ def run_metrics(ck):
     npl = 40 if thorough else 8
     for i in range(npl):
         check_planted(ck, rng, int(rng.choice([3, 4, 7, 20, 60, 200])) if i else 3)
-    ck.require("metric/stamps:jitter", "metric/poses:f64", "metric/offset!=0/second-call", "metric/N=3", "metric/N=200",
+    ck.require("metric/epoch-stamps/poses:f32", "metric/epoch-stamps/poses:f64", "metric/stamps:jitter", "metric/poses:f64", "metric/offset!=0/second-call", "metric/N=3", "metric/N=200",
                "rpe/pairing:frame/all=False", "rpe/pairing:frame/all=True", "rpe/pairing:distance/all=False",
                "rpe/pairing:distance/all=True")
     ck.floor("metric.zero", 40)
